@@ -1,8 +1,593 @@
 import Sigc.Basic
-/-! component model `Types` — see DESIGN.md §3.2 (stub, replaced by the real model) -/
+/-!
+  Component model `Types` (DESIGN.md §3.2, §5 C05, §5 C20) — the compile-time side of libsigc++:
+  which (signature, functor) pairs the templates accept, and under which function type the erased
+  call pointer `slot_rep::call_` is produced and called.
+
+  No proofs here.  Everything is a small total computable definition; `processLine` is the driver
+  entry (`sigc_model types`).
+
+  What is mirrored, function by function (paths below `/repo/sigc++`):
+
+  * `type_traits.h`            `type_trait<T>::take`                         → `take`
+  * `functors/slot.h`          `slot_call<F,R,A...>::call_it` (signature)    → `callItType`
+                                `call_it` (body: `std::forward<take_t<A>>(a_)` into the explicit
+                                `operator()<take_t<A>...>`)                   → `hopCallIt`, `hopAdaptorFunctor`
+                                `slot<R(A...)>::call_type`                    → `slotCallType`
+                                `slot::operator()`                            → `hopSlotCall`
+                                `return <functor result>;` with `T_return`    → `retOk`
+  * `adaptors/adaptor_trait.h` `adaptor_functor::operator()(T_arg&&...)` with explicit `T_arg`
+                                (reference collapsing) + `std::invoke`        → `collapse`, `hopAdaptorFunctor`
+  * `functors/ptr_fun.h`, `functors/mem_fun.h`
+                                `pointer_functor::operator()(take_t<P>...)`,
+                                `bound_mem_functor::operator()(take_t<P>...)`,
+                                `obj_type_with_modifier`                      → `wrapperHop`, `Kind.objOk`
+  * `member_method_trait.h`    `member_method_is_const`                      → `MQ.isConst`
+  * `adaptors/hide.h`, `bind.h`, `retype.h` (one hop)                        → `adaptArgs`
+  * `signal.h`                 the three emitters' call sites                → `castBackTo`, `siteArg`
+  * `signal_connect.h`         exact deduction of `R(A...)` from both arguments → `sigConnExact`
+
+  The C++ rules used (my formalisation for this finite universe, validated against g++ and clang++
+  by the exhaustive `binds`/`cast` tables of the correspondence): [dcl.init.ref], [conv], [expr.static.cast],
+  [stmt.return].
+-/
 namespace Sigc.Types
 
-/-- one driver case per input line → one output line -/
-def processLine (line : String) : String := "unimplemented " ++ line
+/-! ## The type universe -/
+
+/-- base (object) types: `int long double bool`, `struct A`, `struct B : A`, `A*`, `B*`, `const A*` -/
+inductive Base where
+  | int | long | double | bool | clsA | clsB | ptrA | ptrB | cptrA
+  deriving DecidableEq, Repr, Inhabited
+
+/-- declared parameter shapes `T`, `T&`, `const T&`, `T&&` -/
+inductive Shape where
+  | val | lref | cref | rref
+  deriving DecidableEq, Repr, Inhabited
+
+/-- a declared parameter type (also used for declared result types) -/
+structure Param where
+  base : Base
+  shape : Shape
+  deriving DecidableEq, Repr, Inhabited
+
+/-- value categories -/
+inductive Cat where
+  | lvalue | xvalue | prvalue
+  deriving DecidableEq, Repr, Inhabited
+
+/-- the type of an expression: object type, top-level const, value category -/
+structure ExprTy where
+  base : Base
+  const : Bool
+  cat : Cat
+  deriving DecidableEq, Repr, Inhabited
+
+def Base.isArith : Base → Bool
+  | .int | .long | .double | .bool => true
+  | _ => false
+
+def Base.isPtr : Base → Bool
+  | .ptrA | .ptrB | .cptrA => true
+  | _ => false
+
+/-- pointer conversions [conv.ptr], [conv.qual]: `B*→A*`, `B*→const A*`, `A*→const A*` -/
+def ptrConv : Base → Base → Bool
+  | .ptrB, .ptrA => true
+  | .ptrB, .cptrA => true
+  | .ptrA, .cptrA => true
+  | _, _ => false
+
+/-- is there an implicit conversion sequence from an expression of (cv-unqualified) type `s` to `t`
+    (copy-initialisation `t x = e;`)?  identity, arithmetic conversions (incl. narrowing and to `bool`),
+    boolean conversion of pointers, derived-to-base (slicing copy), pointer conversions. -/
+def conv (s t : Base) : Bool :=
+  s == t || (s.isArith && t.isArith) || (s.isPtr && t == .bool) || (s == .clsB && t == .clsA)
+    || ptrConv s t
+
+/-- `t1` is the same type as `t2` or a base class of it -/
+def sameOrBaseOf (t1 t2 : Base) : Bool :=
+  t1 == t2 || (t1 == .clsA && t2 == .clsB)
+
+/-- `t1` is reference-related to `t2` [dcl.init.ref]/4 including "similar" types (CWG 2352, applied
+    by both compilers in C++17 mode): same, base class, or `A*` / `const A*`. -/
+def refRelated (t1 t2 : Base) : Bool :=
+  sameOrBaseOf t1 t2 || (t1 == .cptrA && t2 == .ptrA) || (t1 == .ptrA && t2 == .cptrA)
+
+/-- Can a parameter declared `p` be initialised from an argument expression `e`?  ([dcl.init.ref],
+    [dcl.init] copy-initialisation).
+    * `T`        : a conversion sequence exists;
+    * `T&`       : non-const lvalue of the same type or of a derived class — never a temporary, never const;
+    * `const T&` : binds directly or to a converted temporary;
+    * `T&&`      : a non-const rvalue of a reference-compatible type binds directly; an expression of a
+                   reference-related type otherwise does not bind (lvalue, or would drop const); an
+                   expression of an unrelated type binds through a converted temporary. -/
+def binds (p : Param) (e : ExprTy) : Bool :=
+  match p.shape with
+  | .val => conv e.base p.base
+  | .cref => conv e.base p.base
+  | .lref => e.cat == .lvalue && !e.const && sameOrBaseOf p.base e.base
+  | .rref =>
+    if refRelated p.base e.base then
+      e.cat != .lvalue && !e.const && conv e.base p.base
+    else conv e.base p.base
+
+/-! ## The library's plumbing, hop by hop -/
+
+/-- `type_trait<T>::take` (type_traits.h): `T ↦ const T&`, references unchanged -/
+def take (p : Param) : Param :=
+  match p.shape with
+  | .val => { p with shape := .cref }
+  | _ => p
+
+/-- the expression `std::forward<Q>(a)` where `a` names a parameter and `Q` is the (reference) type `q`:
+    lvalue for lvalue references, xvalue otherwise (`std::forward<T>` of a non-reference `T` is `T&&`). -/
+def fwd (q : Param) : ExprTy :=
+  match q.shape with
+  | .lref => ⟨q.base, false, .lvalue⟩
+  | .cref => ⟨q.base, true, .lvalue⟩
+  | .rref => ⟨q.base, false, .xvalue⟩
+  | .val => ⟨q.base, false, .xvalue⟩
+
+/-- the expression `a` (id-expression naming a parameter of type `q`): always an lvalue -/
+def named (q : Param) : ExprTy :=
+  match q.shape with
+  | .cref => ⟨q.base, true, .lvalue⟩
+  | _ => ⟨q.base, false, .lvalue⟩
+
+/-- reference collapsing of `T_arg&&` for an explicitly given `T_arg = q`
+    (`adaptor_functor::operator()(T_arg&&... arg)`): `U& && = U&`, `U&& && = U&&`, `U && = U&&`. -/
+def collapse (q : Param) : Param :=
+  match q.shape with
+  | .val => { q with shape := .rref }
+  | .lref => q
+  | .cref => q
+  | .rref => q
+
+/-- One library-internal hop: a function whose parameter is declared `q` is called with `e`; inside, the
+    parameter is passed on as `std::forward<f>(a)`.  `none` = the call would not compile. -/
+def hop (q : Param) (f : Param) (e : ExprTy) : Option ExprTy :=
+  if binds q e then some (fwd f) else none
+
+/-- `slot<R(A...)>::operator()(take_t<A>... a)` → `std::forward<take_t<A>>(a)` -/
+def hopSlotCall (a : Param) (e : ExprTy) : Option ExprTy := hop (take a) (take a) e
+/-- `slot_call::call_it(slot_rep*, take_t<A>... a_)` → `std::forward<take_t<A>>(a_)` -/
+def hopCallIt (a : Param) (e : ExprTy) : Option ExprTy := hop (take a) (take a) e
+/-- `adaptor_functor::operator()<take_t<A>...>(take_t<A>&&... arg)` → `std::forward<take_t<A>>(arg)` -/
+def hopAdaptorFunctor (a : Param) (e : ExprTy) : Option ExprTy := hop (collapse (take a)) (take a) e
+
+/-- The whole chain for one declared signature parameter `a`, started by the caller's expression `e0` of
+    `slot::operator()`: what `std::invoke` finally hands to the stored functor. -/
+def chain (a : Param) (e0 : ExprTy) : Option ExprTy :=
+  (hopSlotCall a e0).bind fun e1 => (hopCallIt a e1).bind fun e2 => hopAdaptorFunctor a e2
+
+/-- what reaches the functor for a declared signature parameter (the last `std::forward` of the chain) -/
+def passed (a : Param) : ExprTy := fwd (take a)
+
+/-! ## Functors -/
+
+/-- method qualifiers -/
+inductive MQ where
+  | none | const | volatile | constVolatile
+  deriving DecidableEq, Repr, Inhabited
+
+/-- `internal::member_method_is_const` (member_method_trait.h) -/
+def MQ.isConst : MQ → Bool
+  | .const | .constVolatile => true
+  | _ => false
+
+/-- functor kinds of the universe -/
+inductive Kind where
+  | freeFn                                   -- `&f`            → `adaptor_functor<pointer_functor<R(P...)>>`
+  | ptrFun                                   -- `sigc::ptr_fun(&f)`
+  | fobj                                     -- class with non-const `operator()` (`functor_` is `mutable`)
+  | fobjConst                                -- class with const `operator()`
+  | lambda
+  | lambdaMut
+  | memFun (objConst : Bool) (mq : MQ)       -- `sigc::mem_fun(obj, &C::m)`
+  deriving DecidableEq, Repr, Inhabited
+
+/-- does the stored functor go through a sigc wrapper whose `operator()` is declared with
+    `type_trait_take_t<P>...` (pointer_functor, bound_mem_functor)? -/
+def Kind.wrapped : Kind → Bool
+  | .freeFn | .ptrFun | .memFun _ _ => true
+  | _ => false
+
+/-- can the functor object be formed at all?  `bound_mem_functor(obj_type_with_modifier& obj, …)`:
+    `obj_type_with_modifier` is `const C` iff the method is const, so a const object needs a const method. -/
+def Kind.objOk : Kind → Bool
+  | .memFun objConst mq => !objConst || mq.isConst
+  | _ => true
+
+/-- declared result of a functor / of a signature: `void` or a (possibly reference) type -/
+abbrev Ret := Option Param
+
+/-- the expression a call to a function declared to return `r` is -/
+def retExpr (r : Param) : ExprTy :=
+  match r.shape with
+  | .val => ⟨r.base, false, .prvalue⟩
+  | .lref => ⟨r.base, false, .lvalue⟩
+  | .cref => ⟨r.base, true, .lvalue⟩
+  | .rref => ⟨r.base, false, .xvalue⟩
+
+/-- `call_it` is `T_return call_it(...) { return functor(...); }` ([stmt.return]): a `void` signature accepts
+    only a `void` result (a value operand in a function returning `void` is ill-formed — the library does
+    **not** discard results); otherwise the return object is copy-initialised from the call expression. -/
+def retOk (fr : Ret) (sr : Ret) : Bool :=
+  match sr, fr with
+  | none, none => true
+  | none, some _ => false
+  | some _, none => false
+  | some s, some f => binds s (retExpr f)
+
+structure Sig where
+  params : List Param
+  ret : Ret
+  deriving DecidableEq, Repr, Inhabited
+
+structure Fn where
+  kind : Kind
+  params : List Param
+  ret : Ret
+  deriving DecidableEq, Repr, Inhabited
+
+/-- every position binds and the lengths agree (`std::invoke(f, e...)` is well-formed) -/
+def bindsAll : List Param → List ExprTy → Bool
+  | [], [] => true
+  | p :: ps, e :: es => binds p e && bindsAll ps es
+  | _, _ => false
+
+/-- the sigc wrapper of a free function / bound method: its `operator()` is declared with `take_t<P>` and
+    forwards `std::forward<take_t<P>>(a)` to the wrapped pointer, whose parameter is `P`. -/
+def wrapperHop (p : Param) (e : ExprTy) : Bool :=
+  match hop (take p) (take p) e with
+  | some e' => binds p e'
+  | none => false
+
+def wrapperAll : List Param → List ExprTy → Bool
+  | [], [] => true
+  | p :: ps, e :: es => wrapperHop p e && wrapperAll ps es
+  | _, _ => false
+
+/-- `std::invoke(functor_, args...)` inside `adaptor_functor` (perfect forwarding of `args`) -/
+def invokeOk (fn : Fn) (args : List ExprTy) : Bool :=
+  fn.kind.objOk && (if fn.kind.wrapped then wrapperAll fn.params args else bindsAll fn.params args)
+
+/-! ## One adaptor hop -/
+
+inductive Adaptor where
+  | none
+  | hide (loc : Option Nat)                    -- `hide<I>(f)`; `none` = `hide(f)` (last)
+  | bind (loc : Option Nat) (bound : List Base) -- `bind<I>(f, b...)`; `none` = `bind(f, b...)` (append)
+  | retype                                    -- `retype(ptr_fun(&f))`, `retype(mem_fun(o,&C::m))`
+  deriving DecidableEq, Repr, Inhabited
+
+/-- element `std::get<i>` of the `const std::tuple<take_t<A>...>` the adaptor stores the arguments in:
+    always an lvalue; const iff the reference type is a reference to const.  Rebuilding the tuple
+    (`tuple_start`, `tuple_cdr`, `std::tuple_cat`) constructs each element from this lvalue, which is
+    impossible for an rvalue-reference element. -/
+def tupleElem (a : Param) : Option ExprTy :=
+  match (take a).shape with
+  | .rref => none
+  | .cref => some ⟨a.base, true, .lvalue⟩
+  | _ => some ⟨a.base, false, .lvalue⟩
+
+def tupleElems : List Param → Option (List ExprTy)
+  | [] => some []
+  | a :: as => (tupleElem a).bind fun e => (tupleElems as).map (e :: ·)
+
+/-- `hide<I>`: `t_end = tuple_end<n-I-1>(t)` peels `I+1` elements off the front by repeated `tuple_cdr`, each of
+    which rebuilds the remaining tuple; the hidden element itself is therefore rebuilt (and must not be an rvalue
+    reference) unless it is the first element (dropped by the first `tuple_cdr`) or the last one
+    (`tuple_end<0>` returns `std::tuple<>()` without touching `t`). -/
+def hiddenRebuilt (i n : Nat) : Bool := decide (1 ≤ i) && decide (i + 1 < n)
+
+/-- a bound argument `bound_argument<T>::invoke()` is `T&` -/
+def boundExpr (b : Base) : ExprTy := ⟨b, false, .lvalue⟩
+
+/-- `static_cast<P>(e)` [expr.static.cast]: direct-initialisation; or a base→derived downcast without dropping
+    const (`B&` from a modifiable lvalue `A`, `const B&` from any lvalue `A`, `B&&` from any non-const `A`
+    expression, `B*` from a prvalue-converted `A*`); or a non-const lvalue to an rvalue reference of a
+    reference-compatible type. -/
+def castOk (p : Param) (e : ExprTy) : Bool :=
+  binds p e
+  || (p.base == .clsB && e.base == .clsA &&
+        ((p.shape == .lref && e.cat == .lvalue && !e.const) ||
+         (p.shape == .cref && e.cat == .lvalue) ||
+         (p.shape == .rref && !e.const)))
+  || (p.base == .ptrB && e.base == .ptrA && p.shape == .val)
+  || (p.shape == .rref && e.cat == .lvalue && !e.const && sameOrBaseOf p.base e.base)
+
+/-- the expression `static_cast<P>(…)` -/
+def castExpr (p : Param) : ExprTy := retExpr p
+
+def castAll : List Param → List ExprTy → Option (List ExprTy)
+  | [], [] => some []
+  | p :: ps, e :: es => if castOk p e then (castAll ps es).map (castExpr p :: ·) else none
+  | _, _ => none
+
+/-- The argument expressions the *inner* functor is invoked with, given the declared signature parameters;
+    `none` = the adaptor's own `operator()` does not instantiate. -/
+def adaptArgs (ad : Adaptor) (fn : Fn) (sigp : List Param) : Option (List ExprTy) :=
+  match ad with
+  | .none => some (sigp.map passed)
+  | .hide loc =>
+    let n := sigp.length
+    if n == 0 then none else
+    let i := loc.getD (n - 1)
+    if i ≥ n then none else
+    if hiddenRebuilt i n && ((sigp[i]?).map fun a => a.shape == .rref).getD false then none else
+    tupleElems (sigp.take i ++ sigp.drop (i + 1))
+  | .bind loc bound =>
+    let n := sigp.length
+    let i := loc.getD n
+    if i > n then none else
+    (tupleElems sigp).map fun es => es.take i ++ bound.map boundExpr ++ es.drop i
+  | .retype =>
+    if fn.kind.wrapped then castAll fn.params (sigp.map passed) else none
+
+/-- does `slot<Sig> s = ad(fn);` / `signal<Sig>::connect(ad(fn))` compile? -/
+def accepts (sig : Sig) (ad : Adaptor) (fn : Fn) : Bool :=
+  match adaptArgs ad fn sig.params with
+  | none => false
+  | some args => invokeOk fn args && retOk fn.ret sig.ret
+
+/-! ## Routes -/
+
+inductive Route where
+  | slotInit      -- `sigc::slot<Sig> s = functor;`
+  | connect       -- `sigc::signal<Sig> sig; sig.connect(functor);`
+  | signalConnect -- `sigc::signal_connect(sig, &f)` / `(sig, obj, &C::m)`
+  deriving DecidableEq, Repr, Inhabited
+
+/-- `signal_connect` deduces `T_return, T_arg...` from the signal *and* from the function pointer: both must
+    be identical; the method overloads exist for (non-const object, unqualified method) and
+    (any object, const method) only. -/
+def sigConnExact (sig : Sig) (fn : Fn) : Bool :=
+  (match fn.kind with
+   | .freeFn => true
+   | .memFun objConst .none => !objConst
+   | .memFun _ .const => true
+   | _ => false)
+  && fn.params == sig.params && fn.ret == sig.ret
+
+def acceptsRoute (r : Route) (sig : Sig) (ad : Adaptor) (fn : Fn) : Bool :=
+  match r with
+  | .slotInit => accepts sig ad fn
+  | .connect => accepts sig ad fn
+  | .signalConnect => ad == .none && sigConnExact sig fn && accepts sig .none fn
+
+/-! ## C20: the function type of the erased call pointer -/
+
+/-- types that occur in `call_it`'s function type -/
+inductive CTy where
+  | void
+  | repPtr             -- `sigc::internal::slot_rep*`
+  | par (p : Param)
+  deriving DecidableEq, Repr, Inhabited
+
+structure FnTy where
+  ret : CTy
+  params : List CTy
+  deriving DecidableEq, Repr, Inhabited
+
+def retTy : Ret → CTy
+  | none => .void
+  | some p => .par p
+
+/-- `&slot_call<F, R, A...>::call_it` : `R (*)(slot_rep*, type_trait_take_t<A>...)` (slot.h, `call_it`),
+    the type under which `address()` produces `call_` before erasing it to `hook`. -/
+def callItType (r : Ret) : List Param → FnTy
+  | as => ⟨retTy r, .repPtr :: as.map fun a => .par (take a)⟩
+
+/-- `slot<R(A...)>::call_type` = `R (*)(rep_type*, type_trait_take_t<A>...)` (slot.h), written as the pack
+    expansion it is: one parameter per signature parameter, after the representation pointer. -/
+def takePack : List Param → List CTy
+  | [] => []
+  | a :: as => .par (take a) :: takePack as
+
+def slotCallType (r : Ret) (as : List Param) : FnTy := ⟨retTy r, .repPtr :: takePack as⟩
+
+/-- the places where `call_` is cast back and called -/
+inductive CallSite where
+  | slotCall    -- `slot::operator()`                      function_pointer_cast<call_type>
+  | emitValue   -- `signal_emit<R, void, A...>::emit`      function_pointer_cast<call_type>, call_type = slot_type::call_type
+  | emitVoid    -- `signal_emit<void, void, A...>::emit`   idem with R = void
+  | emitAccum   -- `signal_emit<R, Acc, A...>`             no cast of its own: `std::apply(slot, a_)` → `slot::operator()`
+  deriving DecidableEq, Repr, Inhabited
+
+/-- **the table**: the function type `call_` is cast back to at each call site (checked against the code by
+    `static_assert(std::is_same_v<…>)` probes in the correspondence). -/
+def castBackTo : CallSite → Ret → List Param → FnTy
+  | .slotCall, r, as => slotCallType r as
+  | .emitValue, r, as => slotCallType r as
+  | .emitVoid, _, as => slotCallType none as
+  | .emitAccum, r, as => slotCallType r as
+
+/-- a call site exists only for the signatures its template is selected for -/
+def siteApplies : CallSite → Ret → Bool
+  | .emitVoid, r => r == none
+  | .emitValue, r => r != none
+  | _, _ => true
+
+/-- the argument expression each call site passes for a declared parameter `a`:
+    `slot::operator()` and the void emitter forward; the value emitter passes the named parameter `a...`;
+    the accumulating emitter copies the parameters into `std::tuple<take_t<A>...>` (constructor
+    `signal_emit(take_t<A>... a) : a_(a...)`) and `std::apply`s the const tuple. -/
+def siteArg (s : CallSite) (a : Param) : ExprTy :=
+  match s with
+  | .slotCall | .emitVoid => fwd (take a)
+  | .emitValue | .emitAccum => named (take a)
+
+/-- does the call at this site compile for a declared parameter `a`? (the parameter of `call_type` is `take a`) -/
+def siteOk (s : CallSite) (a : Param) : Bool := binds (take a) (siteArg s a)
+
+/-! ## Driver (`sigc_model types`) -/
+
+def parseBase : String → Option Base
+  | "int" => some .int | "long" => some .long | "double" => some .double | "bool" => some .bool
+  | "A" => some .clsA | "B" => some .clsB | "pA" => some .ptrA | "pB" => some .ptrB
+  | "pcA" => some .cptrA
+  | _ => none
+
+def showBase : Base → String
+  | .int => "int" | .long => "long" | .double => "double" | .bool => "bool"
+  | .clsA => "A" | .clsB => "B" | .ptrA => "pA" | .ptrB => "pB" | .cptrA => "pcA"
+
+def parseShape : String → Option Shape
+  | "v" => some .val | "l" => some .lref | "c" => some .cref | "r" => some .rref
+  | _ => none
+
+def showShape : Shape → String
+  | .val => "v" | .lref => "l" | .cref => "c" | .rref => "r"
+
+/-- `int:v`, `A:l`, `pcA:r` … -/
+def parseParam (s : String) : Option Param :=
+  match s.splitOn ":" with
+  | [b, sh] => do
+    let b ← parseBase b
+    let sh ← parseShape sh
+    pure ⟨b, sh⟩
+  | _ => none
+
+def showParam (p : Param) : String := showBase p.base ++ ":" ++ showShape p.shape
+
+/-- `int:l` lvalue, `int:cl` const lvalue, `int:x`, `int:cx`, `int:p` prvalue -/
+def parseExpr (s : String) : Option ExprTy :=
+  match s.splitOn ":" with
+  | [b, c] => do
+    let b ← parseBase b
+    match c with
+    | "l" => pure ⟨b, false, .lvalue⟩
+    | "cl" => pure ⟨b, true, .lvalue⟩
+    | "x" => pure ⟨b, false, .xvalue⟩
+    | "cx" => pure ⟨b, true, .xvalue⟩
+    | "p" => pure ⟨b, false, .prvalue⟩
+    | _ => none
+  | _ => none
+
+def showExpr (e : ExprTy) : String :=
+  showBase e.base ++ ":" ++ (if e.const then "c" else "") ++
+    (match e.cat with | .lvalue => "l" | .xvalue => "x" | .prvalue => "p")
+
+def parseRet (s : String) : Option Ret :=
+  if s == "void" then some none else (parseParam s).map some
+
+def parseList {α} (f : String → Option α) (s : String) : Option (List α) :=
+  if s == "-" then some [] else (s.splitOn ",").mapM f
+
+def parseMQ : String → Option MQ
+  | "n" => some .none | "c" => some .const | "v" => some .volatile | "cv" => some .constVolatile
+  | _ => none
+
+def parseKind (s : String) : Option Kind :=
+  match s.splitOn ":" with
+  | ["fn"] => some .freeFn
+  | ["ptrfun"] => some .ptrFun
+  | ["fobj"] => some .fobj
+  | ["fobjc"] => some .fobjConst
+  | ["lam"] => some .lambda
+  | ["lammut"] => some .lambdaMut
+  | ["mem", o, q] => do
+    let q ← parseMQ q
+    match o with
+    | "o" => pure (.memFun false q)
+    | "c" => pure (.memFun true q)
+    | _ => none
+  | _ => none
+
+def parseLoc (s : String) : Option (Option Nat) :=
+  if s == "last" then some none else s.toNat?.map some
+
+/-- `none`, `hide:last`, `hide:0`, `bind:last:int,pA`, `bind:1:long`, `retype` -/
+def parseAdaptor (s : String) : Option Adaptor :=
+  match s.splitOn ":" with
+  | ["none"] => some .none
+  | ["retype"] => some .retype
+  | ["hide", l] => (parseLoc l).map .hide
+  | ["bind", l, bs] => do
+    let l ← parseLoc l
+    let bs ← parseList parseBase bs
+    pure (.bind l bs)
+  | _ => none
+
+def parseRoute : String → Option Route
+  | "slot" => some .slotInit | "connect" => some .connect | "sigconn" => some .signalConnect
+  | _ => none
+
+def parseSite : String → Option CallSite
+  | "slotcall" => some .slotCall | "emitvalue" => some .emitValue | "emitvoid" => some .emitVoid
+  | "emitaccum" => some .emitAccum
+  | _ => none
+
+/-- `key=value` -/
+def field (k : String) (ws : List String) : Option String :=
+  ws.findSome? fun w =>
+    match w.splitOn "=" with
+    | [k', v] => if k' == k then some v else none
+    | _ => none
+
+/-- why a probe is rejected (diagnostic only; the verdict is `acceptsRoute`) -/
+def reason (r : Route) (sig : Sig) (ad : Adaptor) (fn : Fn) : String :=
+  if !fn.kind.objOk then "object"
+  else if r == .signalConnect && !(ad == .none && sigConnExact sig fn) then "inexact"
+  else match adaptArgs ad fn sig.params with
+    | none => "adaptor"
+    | some args =>
+      if args.length != fn.params.length then "arity"
+      else if !invokeOk fn args then "param"
+      else if !retOk fn.ret sig.ret then "result"
+      else "?"
+
+def showCTy : CTy → String
+  | .void => "void" | .repPtr => "rep*" | .par p => showParam p
+
+def showFnTy (t : FnTy) : String :=
+  showCTy t.ret ++ "(" ++ ",".intercalate (t.params.map showCTy) ++ ")"
+
+def boolStr (b : Bool) : String := if b then "true" else "false"
+
+/-- one driver case per input line → one output line.
+
+    * `probe <route> <adaptor> <kind> R=<ret> S=<params|-> FR=<ret> FP=<params|->` → `accept` | `reject <why>`
+    * `binds <param> <expr>` / `cast <param> <expr>` → `true` | `false`
+    * `passed <param>` → expression token; `chain <param> <expr>` → expression token | `none`
+    * `c20 <site> R=<ret> S=<params|->` → `produced=<fnty> castback=<fnty> equal=<bool> applies=<bool> argsok=<bool>` -/
+def processLine (line : String) : String :=
+  match words line with
+  | "probe" :: r :: ad :: k :: rest =>
+    match parseRoute r, parseAdaptor ad, parseKind k, (field "R" rest).bind parseRet,
+      (field "S" rest).bind (parseList parseParam), (field "FR" rest).bind parseRet,
+      (field "FP" rest).bind (parseList parseParam) with
+    | some r, some ad, some k, some sr, some sp, some fr, some fp =>
+      let sig : Sig := ⟨sp, sr⟩
+      let fn : Fn := ⟨k, fp, fr⟩
+      if acceptsRoute r sig ad fn then "accept" else "reject " ++ reason r sig ad fn
+    | _, _, _, _, _, _, _ => "error parse"
+  | ["binds", p, e] =>
+    match parseParam p, parseExpr e with
+    | some p, some e => boolStr (binds p e)
+    | _, _ => "error parse"
+  | ["cast", p, e] =>
+    match parseParam p, parseExpr e with
+    | some p, some e => boolStr (castOk p e)
+    | _, _ => "error parse"
+  | ["passed", p] =>
+    match parseParam p with
+    | some p => showExpr (passed p)
+    | none => "error parse"
+  | ["chain", p, e] =>
+    match parseParam p, parseExpr e with
+    | some p, some e => (match chain p e with | some e' => showExpr e' | none => "none")
+    | _, _ => "error parse"
+  | "c20" :: s :: rest =>
+    match parseSite s, (field "R" rest).bind parseRet, (field "S" rest).bind (parseList parseParam) with
+    | some s, some r, some ps =>
+      "produced=" ++ showFnTy (callItType r ps) ++ " castback=" ++ showFnTy (castBackTo s r ps)
+        ++ " equal=" ++ boolStr (callItType r ps == castBackTo s r ps)
+        ++ " applies=" ++ boolStr (siteApplies s r)
+        ++ " argsok=" ++ boolStr (ps.all (siteOk s))
+    | _, _, _ => "error parse"
+  | _ => "error unknown " ++ line
 
 end Sigc.Types
